@@ -68,4 +68,20 @@ CHECKS.update({
         note="Exhaustive over the stated alphabet/length/configuration grid only; one fixed two-leaf tree.",
     ),
 })
+CHECKS.update({
+    "C04": dict(
+        level="exploration",
+        technique="runtime monitor: offline checker of recorded state-diff histories against an explicit schedule automaton (allowed/required change sets), plus residual freshness oracle and reference warm-up update",
+        design_ref="DESIGN.md section 4 C04",
+        text="Successive optimizer states are diffed bitwise (statistics, preconditioners, diagnostics, count) at every step and the observed change set is compared with the automaton computed from (statistics interval, preconditioner interval incl. the lr-scheduled formula, start step): nothing may change off schedule, statistics must change on statistics steps, preconditioners must change on refresh steps when statistics moved and the error is accepted, the stored root must invert the statistics stored in the same state (stale roots would fail: counted), count advances by one, updates before/after the start step equal the reference grafting / preconditioned update. Grid walked completely: s,p in 1..3 (thorough 1..5) x start x {jit, pmap-quantised, sharded} + lr-scheduled intervals + Tearfree Shampoo (stat/precond freq) + Sketchy (update_freq) + grafting counter.",
+        note="Grid bounds as stated in the evidence rule; one fixed two-leaf tree per driver.",
+    ),
+    "C05": dict(
+        level="exploration",
+        technique="runtime monitor: closed-form grafting steps from the monitor's own accumulators + reference application of the preconditioner stored in the real state (dense reconstruction of packed / quantised forms)",
+        design_ref="DESIGN.md section 4 C05",
+        text="With momentum/weight decay off and lr=1 the returned update is minus the pre-momentum update; per leaf and step it is compared with (a) the closed-form graft step before the start step and for skipped/masked leaves, (b) afterwards: norm equal to the graft step's norm and componentwise equal (within the running error bound) to the stored preconditioner applied to the gradient and rescaled, zero when that is zero. distributed_shampoo graft types 1..6 x {full, compressed +r/-r, FD sketch, int16-quantised} x shapes rank 1-4; Tearfree {SGD, RMSProp, AdaFactor, none} x {Shampoo, Sketchy} with masking.",
+        note="AdaFactor's closed form is optax.adafactor itself (outside the repository). FD runs with x64 off.",
+    ),
+})
 NOT_APPLICABLE = {}
